@@ -37,6 +37,9 @@ CHECK_FIELD = {
 }
 
 
+BLOCK_BITS = {"r12": 96, "r34": 144, "r1": 192}
+
+
 def received_check_field_all_zero(f):
     inp = f.get("input") or {}
     kind = inp.get("pdu")
@@ -47,9 +50,9 @@ def received_check_field_all_zero(f):
     if len(rec) >= b and "1" not in rec[a:b]:
         return True
     if kind in ("r12", "r34", "r1") and inp.get("last"):
-        n = len(rec)
+        n = BLOCK_BITS[kind]
         sent = inp.get("sent") or ""
-        if "1" not in rec[n - 32:] or (len(sent) == n and "1" not in sent[n - 32:]):
+        if (len(rec) >= n and "1" not in rec[n - 32:n]) or (len(sent) == n and "1" not in sent[n - 32:]):
             return True
     return False
 
@@ -158,6 +161,125 @@ def all_bursts(n, maxlen):
 
 
 # ------------------------------------------------------------------------------------------------
+# budgets: a boosted run (ctx.boost 4 = source drift, 8 = proof / correspondence broke) widens the number
+# of generated PDUs by 2 / 3; the per-PDU pattern samples stay as they are (a boosted quick stays < 4 min)
+def scale(ctx) -> int:
+    b = getattr(ctx, "boost", 1)
+    return 1 if b <= 1 else (2 if b <= 4 else 3)
+
+
+def nb(ctx, quick: int, thorough: int) -> int:
+    return (thorough if ctx.thorough() else quick) * scale(ctx)
+
+
+# ------------------------------------------------------------------------------------------------
+# special check-field values: the values a careless special case is most likely to single out.
+# ETSI TS 102 361-1 B.3.12 data type CRC masks (harness copy, not read from the library)
+ETSI_MASKS = {
+    "PiHeader": 0x6969, "VoiceLCHeader": 0x969696, "TerminatorWithLC": 0x999999, "CSBK": 0xA5A5, "MBCHeader": 0xAAAA,
+    "DataHeader": 0xCCCC, "UnifiedSingleBlockData": 0x3333, "Rate12DataContinuation": 0x0F0,
+    "Rate34DataContinuation": 0x1FF, "Rate1DataContinuation": 0x10F, "ReverseChannel": 0x7A,
+}
+KIND_MASK = {"dh": "DataHeader", "pi": "PiHeader", "r12": "Rate12DataContinuation", "r34": "Rate34DataContinuation", "r1": "Rate1DataContinuation"}
+
+
+def rev_bits(v: int, w: int) -> int:
+    return int(format(v & ((1 << w) - 1), f"0{w}b")[::-1], 2)
+
+
+def special_values(w: int, own=None):
+    """[(label, value)] distinct w-bit values: 0, all-ones, the bare mask of the PDU kind (also complemented /
+    bit-reversed), the masks of the other kinds (low w bits, top w bits, complement), every single bit,
+    all-ones with one bit cleared, alternating bits, one octet set"""
+    full = (1 << w) - 1
+    seen = {}
+
+    def add(label, v):
+        seen.setdefault(v & full, label)
+
+    add("zero", 0)
+    add("all-ones", full)
+    if own:
+        m = ETSI_MASKS[own]
+        add("own-mask", m)
+        add("own-mask-complement", ~m)
+        add("own-mask-reversed", rev_bits(m, w))
+    for name, m in ETSI_MASKS.items():
+        add("mask:" + name, m)
+        if m >> w:
+            add("mask-top-bits:" + name, m >> (m.bit_length() - w))
+        add("mask-complement:" + name, ~m)
+        add("mask-reversed:" + name, rev_bits(m, w))
+    for k in range(w):
+        add(f"bit{k}", 1 << k)
+    add("all-ones-but-lsb", full ^ 1)
+    add("all-ones-but-msb", full >> 1)
+    add("0x55..", 0x5555555555 & full)
+    add("0xAA..", 0xAAAAAAAAAA & full)
+    if w > 8:
+        add("low-octet", 0xFF)
+        add("high-octet", 0xFF << (w - 8))
+    return [(label, v) for v, label in seen.items()]
+
+
+def derived_values(c: int, w: int):
+    """[(label, value)] values derived from the correct check value c: complement, bit-reversed, +-1, c xor every
+    mask (the unmasked CRC / the CRC under another kind's mask), octets swapped"""
+    full = (1 << w) - 1
+    seen = {}
+
+    def add(label, v):
+        v &= full
+        if v != c:
+            seen.setdefault(v, label)
+
+    add("complement-of-correct", c ^ full)
+    add("correct-bit-reversed", rev_bits(c, w))
+    add("correct+1", c + 1)
+    add("correct-1", c - 1)
+    for name, m in ETSI_MASKS.items():
+        add("correct-xor-mask:" + name, c ^ m)
+    if w == 16:
+        add("correct-octets-swapped", ((c & 0xFF) << 8) | (c >> 8))
+    return [(label, v) for v, label in seen.items()]
+
+
+def gf2_solve(cols, target):
+    """a 0/1 list x with xor of cols[i] over x[i] = 1 equal to target, or None (ints as GF(2) vectors)"""
+    basis = {}
+    for i, c in enumerate(cols):
+        v, m = c, 1 << i
+        while v:
+            hb = v.bit_length() - 1
+            if hb in basis:
+                v ^= basis[hb][0]
+                m ^= basis[hb][1]
+            else:
+                basis[hb] = (v, m)
+                break
+    v, m = target, 0
+    while v:
+        hb = v.bit_length() - 1
+        if hb not in basis:
+            return None
+        v ^= basis[hb][0]
+        m ^= basis[hb][1]
+    return [(m >> i) & 1 for i in range(len(cols))]
+
+
+def one_burst(rng, pos, ln):
+    """a burst over [pos, pos+ln): first and last bit set, random interior"""
+    if ln == 1:
+        return (pos,)
+    return tuple([pos] + [i for i in range(pos + 1, pos + ln - 1) if rng.getrandbits(1)] + [pos + ln - 1])
+
+
+# trailing context for the bit-level parsers: 1..3 bits of every value, octets, and (added per PDU) the
+# PDU's own check field, the bare mask of its kind and the next PDU
+TRAIL_BITS = ["0", "1", "00", "01", "10", "11", "000", "111", "101", "010", "0" * 8, "1" * 8, "1" * 16, "0" * 16]
+
+
+# ------------------------------------------------------------------------------------------------
 class Fec:
     """slot type / EMB: indicator against code word membership for received words"""
 
@@ -207,8 +329,20 @@ class Fec:
             for w in list(self.codewords)[:: 3 if self.kind == "slot" else 1]:
                 v = int(w, 2)
                 ws |= {v ^ (1 << i) for i in range(n)}
-            ws |= {ctx.rng.getrandbits(n) for _ in range(ctx.budget(10000, 10000))}
+            ws |= {ctx.rng.getrandbits(n) for _ in range(nb(ctx, 10000, 10000))}
             words = sorted(ws)
+        # special parity-field values (class "special check-field value"): every data field x {0, all-ones, masks,
+        # single bits, ...} and x values derived from its correct parity (complement, reversed, +-1, xor masks)
+        pw = n - k
+        sp = set()
+        fixed = special_values(pw)
+        for w in self.codewords:
+            d, par = int(w[:k], 2), int(w[k:], 2)
+            for label, v in fixed + derived_values(par, pw):
+                sp.add((d << pw) | v)
+        ctx.count(f"{self.kind}:special-parity-words", len(sp))
+        if not ctx.thorough():
+            words = sorted(set(words) | sp)
         pairs = []
         for wv in words:
             ws = format(wv, f"0{n}b")
@@ -225,6 +359,26 @@ class Fec:
                 ctx.fail("indicator-not-membership", {"pdu": self.kind, "received": ws},
                          f"{self.cls.__name__}.{self.okattr} = {getattr(o, self.okattr)} but code word membership of the received word is {member}", expected=member, actual=bool(getattr(o, self.okattr)))
         ctx.count(f"{self.kind}:words", len(pairs))
+        # the word inside a longer / shorter buffer (class "embedded in a larger buffer"): from_bits takes exactly n
+        # bits; whatever it does with another length, it must not report a non-member ok nor a member not ok
+        some = sorted(self.codewords)[:: 7] + [format(int(w, 2) ^ (1 << ctx.rng.randrange(n)), f"0{n}b") for w in sorted(self.codewords)[:: 5]]
+        for ws in some:
+            member = ws in self.codewords
+            for t in TRAIL_BITS[:10] + [ws]:
+                buf = ws + t
+                o = call(self.cls.from_bits, bitarray(buf))
+                pairs.append((f"{self.kind}.dec {buf}", self.out(o)))
+                ctx.case((self.kind, "context", buf))
+                ctx.count(f"{self.kind}:context:" + ("rejected" if is_err(o) else "parsed"))
+                if not is_err(o) and bool(getattr(o, self.okattr)) != member:
+                    ctx.fail("indicator-not-membership", {"pdu": self.kind, "received": buf, "word": ws, "trailing": t},
+                             f"{self.cls.__name__}.from_bits of a {n}-bit word followed by {len(t)} more bits reports {self.okattr} = {getattr(o, self.okattr)}, membership of the word is {member}",
+                             expected=member, actual=bool(getattr(o, self.okattr)))
+            o = call(self.cls.from_bits, bitarray(ws[:-1]))
+            pairs.append((f"{self.kind}.dec {ws[:-1]}", self.out(o)))
+            ctx.case((self.kind, "context", ws[:-1]))
+            if not is_err(o) and getattr(o, self.okattr) and not member:
+                ctx.fail("indicator-not-membership", {"pdu": self.kind, "received": ws[:-1], "word": ws}, f"{self.cls.__name__}.from_bits of a truncated non-member reports ok", expected=False, actual=True)
         if not ctx.search_only and ctx.driver_ok:
             ctx.correspond(f"{self.kind}.from_bits", pairs)
         # selfcheck: construct from fields, serialise, parse back
@@ -358,7 +512,7 @@ class CrcPdu:
         if self.kind in ("dh", "pi"):
             pats += list(itertools.combinations(range(n), 2))
             triples = list(itertools.combinations(range(n), 3))
-            pats += triples if exhaustive_level >= 2 else rng.sample(triples, self.ctx.budget(1500, 12000))
+            pats += triples if exhaustive_level >= 2 else rng.sample(triples, 12000 if self.ctx.thorough() else 1500)
             pats += burst_patterns(rng, n, 16, 1 if exhaustive_level == 0 else 6)
         elif self.kind == "slc":
             pats += list(itertools.combinations(range(n), 2))
@@ -369,6 +523,38 @@ class CrcPdu:
             else:
                 pats += to_pdu(burst_patterns(rng, n, 9, 2))
         return pats
+
+    # -- the property's verdict on one received buffer that is NOT what was sent
+    def judge(self, tag, sent_word, r, pat, pairs, corr=True, extra=None, f0=None):
+        """r = the received buffer (a corrupted PDU, possibly followed by context); the outcome must be a decode
+        error or indicator false"""
+        ctx = self.ctx
+        q, ind, f1 = self.parse(r)
+        if corr:
+            c = self.corr(r, q)
+            if c:
+                pairs.append(c)
+        if is_err(q):
+            ctx.count(f"{tag}:decode-error")
+            return "error"
+        if ind is False:
+            ctx.count(f"{tag}:detected")
+            return "detected"
+        if f0 is None:
+            f0 = self.parse(sent_word)[2] or {}
+        same = f1 == f0
+        ctx.count(f"{tag}:ACCEPTED-{'same' if same else 'DIFFERENT'}-fields")
+        diff = {k: [f0.get(k), f1.get(k)] for k in set(f0) | set(f1) if f0.get(k) != f1.get(k)}
+        inp = {"pdu": self.kind, "last": self.last, "sent": barg(sent_word), "positions": list(pat), "received": barg(r), "fields_differ": not same}
+        inp.update(extra or {})
+        what = f"{tag}: a corrupted PDU ({len(pat)} inverted bits: {list(pat)[:12]}"
+        if extra and extra.get("special"):
+            what += f"; received check field = {extra['special']}"
+        if extra and extra.get("trailing"):
+            what += f"; followed by {len(extra['trailing'])} more bits"
+        what += ") is accepted (indicator true)" + (f" with different field values {json.dumps(diff)[:300]}" if not same else " (same field values)")
+        ctx.fail("corruption-accepted", inp, what, expected="indicator false or a decode error", actual="indicator true")
+        return "accepted"
 
     def run(self, n_pdus, exhaustive_first):
         ctx, kind = self.ctx, self.kind
@@ -402,26 +588,340 @@ class CrcPdu:
             level = (2 if ctx.thorough() else 1) if i < exhaustive_first else (1 if ctx.thorough() and i < 3 * exhaustive_first else 0)
             for pat in self.patterns(ctx.rng, level):
                 r = apply_pattern(word, pat)
-                q, ind, f1 = self.parse(r)
                 ctx.case((tag, sent, pat))
-                c = self.corr(r, q) if (len(pat) == 1 or ctx.rng.random() < (0.25 if not ctx.thorough() else 0.05)) else None
-                if c:
-                    pairs.append(c)
-                if is_err(q):
-                    ctx.count(f"{tag}:decode-error")
-                elif ind is False:
-                    ctx.count(f"{tag}:detected")
-                else:
-                    same = f1 == f0
-                    ctx.count(f"{tag}:ACCEPTED-{'same' if same else 'DIFFERENT'}-fields")
-                    diff = {k: [f0.get(k), f1.get(k)] for k in set(f0) | set(f1) if f0.get(k) != f1.get(k)}
-                    ctx.fail("corruption-accepted",
-                             {"pdu": kind, "last": self.last, "sent": sent, "positions": list(pat), "received": barg(r), "fields_differ": not same},
-                             f"{tag}: a corrupted PDU ({len(pat)} inverted bits: {list(pat)[:12]}) is accepted (indicator true)"
-                             + (f" with different field values {json.dumps(diff)[:300]}" if not same else " (same field values)"),
-                             expected="indicator false or a decode error", actual="indicator true")
+                self.judge(tag, word, r, pat, pairs, corr=(len(pat) == 1 or ctx.rng.random() < (0.25 if not ctx.thorough() else 0.05)), f0=f0)
+            # ---- the verdict on the valid word does not depend on what was parsed before it
+            p2, ind2, _ = self.parse(word)
+            if is_err(p2) or ind2 is not True:
+                ctx.fail("selfcheck", {"pdu": kind, "last": self.last, "sent": sent, "after": "corrupted copies of the same PDU were parsed"},
+                         f"a library-serialised {tag} PDU parsed again after corrupted copies of it does not have its indicator true", expected=True, actual=str(p2 if is_err(p2) else ind2))
         if not ctx.search_only and ctx.driver_ok and pairs:
             ctx.correspond(f"{tag}.indicator", pairs)
+
+    # ---------------------------------------------------------------------------------------------
+    # check field access in code order (most significant check bit first), library-side rebuild, solver
+    def chk_pos(self):
+        return self.code_order()[-self.check_width():]
+
+    def get_chk(self, word) -> int:
+        v = 0
+        for p in self.chk_pos():
+            v = (v << 1) | word[p]
+        return v
+
+    def set_chk(self, word, v: int) -> bitarray:
+        r, w = bitarray(word), self.check_width()
+        for i, p in enumerate(self.chk_pos()):
+            r[p] = (v >> (w - 1 - i)) & 1
+        return r
+
+    def rebuild(self, word):
+        """the library's serialisation of a PDU with the data bits of `word` and no check value given
+        (None if the library does not keep these data bits as they are)"""
+        L, kind = self.L, self.kind
+
+        def f():
+            if kind == "dh":
+                return L.DataHeader.from_bits(word[:80] + bitarray("0" * 16)).as_bits()
+            if kind == "pi":
+                return L.PIHeader(word[:80].tobytes()).as_bits()
+            if kind == "slc":
+                return L.ShortLinkControl.from_bits(word[:28] + bitarray("0" * 8)).as_bits()
+            cls, types, n = L.rates[kind]
+            if self.last:
+                return cls(data=word[16:n - 32].tobytes(), packet_type=types.ConfirmedLastBlock, dbsn=ba2int(word[0:7]), crc32=ba2int(word[n - 32:n])).as_bits()
+            return cls(data=word[16:n].tobytes(), packet_type=types.Confirmed, dbsn=ba2int(word[0:7])).as_bits()
+
+        r = call(f)
+        if is_err(r) or len(r) != len(word) or self.set_chk(r, 0) != self.set_chk(word, 0):
+            return None
+        return r
+
+    def free_pos(self):
+        """data bit positions the library keeps verbatim whatever their value"""
+        if self.kind == "dh":
+            return list(range(16, 64))  # the two 24-bit addresses
+        if self.kind == "pi":
+            return list(range(0, 80))
+        if self.kind == "slc":
+            return list(range(12, 28))  # the two 8-bit addresses of an activity update
+        return list(range(16, self.width() - (32 if self.last else 0)))
+
+    def solver(self, base):
+        """the check value is an affine function of the data bits: its linear part over (a sample of) the free
+        positions, measured on the library's own serialiser (no knowledge of polynomial, mask or bit order)"""
+        rng, w = self.ctx.rng, self.check_width()
+        free = self.free_pos()
+        if len(free) > w + 24:
+            free = sorted(rng.sample(free, w + 24))
+        b0 = self.rebuild(base)
+        if b0 is None:
+            return None
+        c0 = self.get_chk(b0)
+        pos, cols = [], []
+        for p in free:
+            x = bitarray(b0)
+            x.invert(p)
+            r = self.rebuild(x)
+            if r is not None:
+                pos.append(p)
+                cols.append(self.get_chk(r) ^ c0)
+        return b0, c0, pos, cols
+
+    def with_check(self, sv, target):
+        """a library-serialised valid PDU whose check value is `target` (None if there is none near the base)"""
+        b0, c0, pos, cols = sv
+        x = gf2_solve(cols, c0 ^ target)
+        if x is None:
+            return None
+        y = bitarray(b0)
+        for p, xi in zip(pos, x):
+            if xi:
+                y.invert(p)
+        r = self.rebuild(y)
+        if r is None or self.get_chk(r) != target:
+            return None
+        return r
+
+    def class_pattern(self, rng, region):
+        """one error pattern of the guaranteed class as code-order indices (data bits 0..d-1, check bits d..n-1);
+        region 'data': confined to the data bits, 'mixed': touches data bits and check bits"""
+        n, w = self.width(), self.check_width()
+        d = n - w
+        multi = {"dh": 3, "pi": 3, "slc": 2}.get(self.kind, 1)
+        if region == "data":
+            if multi > 1 and rng.random() < 0.4:
+                return tuple(sorted(rng.sample(range(d), rng.randint(2, multi))))
+            ln = rng.randint(2, w)
+            return one_burst(rng, rng.randrange(0, d - ln + 1), ln)
+        if multi > 1 and rng.random() < 0.4:
+            k = rng.randint(2, multi)
+            kc = rng.randint(1, k - 1)
+            return tuple(sorted(rng.sample(range(d), k - kc) + rng.sample(range(d, n), kc)))
+        ln = rng.randint(2, w)
+        return one_burst(rng, rng.randrange(max(0, d - ln + 1), d), ln)
+
+    def bases(self, count):
+        """library-made PDUs with free data bits (every data header format, activity updates, blocks)"""
+        out = []
+        i = 0
+        while len(out) < count and i < 4 * count + 8:
+            o = self.make(self.ctx.rng, i if self.kind != "slc" else 4 * i + 1 + i % 3)
+            i += 1
+            w = call(lambda: o.as_bits()) if not is_err(o) else o
+            if not is_err(w):
+                out.append(w)
+        return out
+
+    # ---------------------------------------------------------------------------------------------
+    def special_run(self, n_bases, per_value_data, per_value_mixed):
+        """class "special check-field value": (a) the received check field is a special value and does not match the
+        data (an error confined to the check field is a burst no longer than the field); (b) valid PDUs whose
+        CORRECT check value is a special value, hit in their data bits by errors of the guaranteed class (the
+        received check field is then that special value); (c) errors of the class touching data and check bits,
+        sent PDU chosen such that the received check field is the special value"""
+        ctx, kind, rng = self.ctx, self.kind, self.ctx.rng
+        tag = kind + ("-last" if self.last else "")
+        n, w, order = self.width(), self.check_width(), self.code_order()
+        d = n - w
+        fixed = special_values(w, KIND_MASK.get(kind))
+        pairs = []
+        bases = self.bases(n_bases)
+        solvers = []
+        for word in bases:
+            sent = barg(word)
+            p, ind, f0 = self.parse(word)
+            if is_err(p) or ind is not True:
+                continue  # reported by run()
+            correct = self.get_chk(word)
+            # (a)
+            for label, v in fixed + derived_values(correct, w):
+                if v == correct:
+                    continue
+                r = self.set_chk(word, v)
+                pat = tuple(i for i in range(n) if r[i] != word[i])
+                ctx.case((tag, "special-a", sent, v))
+                ctx.count(f"{tag}:special:received-check-field-only")
+                self.judge(tag, word, r, pat, pairs, extra={"class": "special-check-value/check-field-only", "special": label}, f0=f0)
+            sv = self.solver(word)
+            if sv is None or len(sv[2]) < w:
+                ctx.count(f"{tag}:special:no-solver")
+            else:
+                solvers.append(sv)
+        if not solvers:
+            if not ctx.search_only and ctx.driver_ok and pairs:
+                ctx.correspond(f"{tag}.special-values", pairs)
+            return
+        for j, (label, v) in enumerate(fixed):
+            sv = solvers[j % len(solvers)]
+            s = self.with_check(sv, v)
+            if s is None:
+                ctx.count(f"{tag}:special:unsolved")
+                continue
+            sent = barg(s)
+            ctx.count(f"{tag}:special:valid-pdus-with-special-check-value")
+            p, ind, f0 = self.parse(s)
+            c = self.corr(s, p)
+            if c:
+                pairs.append(c)
+            ctx.case((tag, "special-self", sent))
+            if is_err(p) or ind is not True:
+                ctx.fail("selfcheck", {"pdu": kind, "last": self.last, "sent": sent, "special": label},
+                         f"a library-serialised {tag} PDU whose check value is {label} ({v:#x}) does not parse back with its indicator true", expected=True, actual=str(p if is_err(p) else ind))
+                continue
+            # (b) data bits hit, check field stays the special value
+            singles = list(range(d)) if (d <= 100 or ctx.thorough()) else sorted(rng.sample(range(d), 100))
+            pats = [(i,) for i in singles] + [self.class_pattern(rng, "data") for _ in range(per_value_data)]
+            for cp in pats:
+                pat = tuple(sorted(order[i] for i in cp))
+                r = apply_pattern(s, pat)
+                ctx.case((tag, "special-b", sent, pat))
+                ctx.count(f"{tag}:special:data-corrupted-under-special-check-value")
+                self.judge(tag, s, r, pat, pairs, corr=(len(pat) > 1 or rng.random() < 0.3), extra={"class": "special-check-value/valid-pdu-data-corrupted", "special": label}, f0=f0)
+            # special value -> another special value
+            for label2, v2 in rng.sample(fixed, min(4, len(fixed))):
+                if v2 != v:
+                    r = self.set_chk(s, v2)
+                    pat = tuple(i for i in range(n) if r[i] != s[i])
+                    ctx.case((tag, "special-a2", sent, v2))
+                    self.judge(tag, s, r, pat, pairs, extra={"class": "special-check-value/special-to-special", "special": label2}, f0=f0)
+            # (c) mixed patterns: sent check value = v xor (check part of the pattern)
+            for _ in range(per_value_mixed):
+                cp = self.class_pattern(rng, "mixed")
+                ec = 0
+                for i in cp:
+                    if i >= d:
+                        ec |= 1 << (n - 1 - i)
+                s2 = self.with_check(sv, v ^ ec)
+                if s2 is None:
+                    ctx.count(f"{tag}:special:unsolved")
+                    continue
+                pat = tuple(sorted(order[i] for i in cp))
+                r = apply_pattern(s2, pat)
+                if self.get_chk(r) != v:
+                    continue
+                ctx.case((tag, "special-c", barg(s2), pat))
+                ctx.count(f"{tag}:special:data+check-corrupted-into-special-check-value")
+                self.judge(tag, s2, r, pat, pairs, extra={"class": "special-check-value/data-and-check-corrupted", "special": label})
+        if not ctx.search_only and ctx.driver_ok and pairs:
+            ctx.correspond(f"{tag}.special-values", pairs)
+
+    def crc32_special_run(self, per_value):
+        """confirmed last block: the CRC-32 field (which the CRC-9 covers) is a special value, sent or received"""
+        ctx, kind, rng = self.ctx, self.kind, self.ctx.rng
+        cls, types, n = self.L.rates[kind]
+        tag = kind + "-last"
+        order = self.code_order()
+        pairs = []
+        vals = special_values(32)
+        vals = vals[:2] + rng.sample(vals[2:], min(len(vals) - 2, nb(ctx, 10, 30)))
+        nbytes = types.ConfirmedLastBlock.value
+        c32_code = [j for j, p in enumerate(order) if n - 32 <= p < n]  # code-order indices of the CRC-32 field
+        for label, v in vals:
+            for mode in ("sent", "received"):
+                e32 = ()
+                sent32 = v
+                if mode == "received":
+                    # a burst of at most 9 bits inside the field turns the sent value into the special value
+                    ln = rng.randint(1, 9)
+                    st = rng.randrange(0, 32 - ln + 1)
+                    e32 = tuple(c32_code[i] for i in one_burst(rng, st, ln))
+                    for i in e32:
+                        sent32 ^= 1 << (n - 1 - order[i])
+                o = call(cls, data=bytes(rng.getrandbits(8) for _ in range(nbytes)), packet_type=types.ConfirmedLastBlock, dbsn=rng.randrange(128), crc32=sent32)
+                s = call(lambda: o.as_bits()) if not is_err(o) else o
+                if is_err(s):
+                    ctx.fail("construct", {"pdu": kind, "last": True, "crc32": sent32}, f"cannot build / serialise a {tag} block with CRC-32 {sent32:#x}: {s}")
+                    continue
+                sent = barg(s)
+                p, ind, f0 = self.parse(s)
+                c = self.corr(s, p)
+                if c:
+                    pairs.append(c)
+                ctx.case((tag, "crc32-self", sent))
+                ctx.count(f"{tag}:special:crc32-{mode}")
+                if is_err(p) or ind is not True:
+                    ctx.fail("selfcheck", {"pdu": kind, "last": True, "sent": sent, "special": "crc32 " + label},
+                             f"a library-serialised {tag} block whose CRC-32 field is {sent32:#x} does not parse back with crc9_ok", expected=True, actual=str(p if is_err(p) else ind))
+                    continue
+                if mode == "received":
+                    cps = [e32]
+                else:
+                    cps = [(i,) for i in rng.sample(range(n), per_value)] + [one_burst(rng, st, ln) for ln, st in ((ln, rng.randrange(0, n - ln + 1)) for ln in (rng.randint(2, 9) for _ in range(per_value)))]
+                for cp in cps:
+                    pat = tuple(sorted(order[i] for i in cp))
+                    r = apply_pattern(s, pat)
+                    ctx.case((tag, "crc32", sent, pat))
+                    self.judge(tag, s, r, pat, pairs, extra={"class": "special-check-value/crc32-" + mode, "special": "crc32 " + label}, f0=f0)
+        if not ctx.search_only and ctx.driver_ok and pairs:
+            ctx.correspond(f"{tag}.crc32-special-values", pairs)
+
+    # ---------------------------------------------------------------------------------------------
+    def context_run(self, n_pdus, per_pdu):
+        """class "PDU embedded in a larger buffer": every valid and corrupted PDU followed by 1..3 more bits (all
+        values), octets, its own check field, the bare mask, the next PDU.  Parsers whose contract accepts a
+        longer buffer (data header, short LC) must give the verdict of the exact-length buffer; the exact-length
+        parsers (confirmed blocks) may reject, but must never accept a corrupted PDU"""
+        ctx, kind, rng = self.ctx, self.kind, self.ctx.rng
+        tag = kind + ("-last" if self.last else "")
+        n, w, order = self.width(), self.check_width(), self.code_order()
+        lenient = kind in ("dh", "slc")
+        pairs = []
+        for word in self.bases(n_pdus):
+            sent = barg(word)
+            p, ind, f0 = self.parse(word)
+            if is_err(p) or ind is not True:
+                continue  # reported by run()
+            own = KIND_MASK.get(kind)
+            trails = TRAIL_BITS + [sent, "".join(str(word[i]) for i in self.chk_pos()), sent[-w:], sent[:3]]
+            if own:
+                trails.append(format(ETSI_MASKS[own] & ((1 << w) - 1), f"0{w}b"))
+            for t in trails:
+                buf = word + bitarray(t)
+                q, ind1, _ = self.parse(buf)
+                c = self.corr(buf, q)
+                if c:
+                    pairs.append(c)
+                ctx.case((tag, "context-self", sent, t))
+                ctx.count(f"{tag}:context:valid+{'bits' if len(t) < 8 else 'octets' if len(t) < n else 'next-pdu'}")
+                if (is_err(q) and lenient) or (not is_err(q) and ind1 is not True):
+                    ctx.fail("selfcheck-in-context", {"pdu": kind, "last": self.last, "sent": sent, "buffer": barg(buf), "trailing": t},
+                             f"a library-serialised {tag} PDU followed by {len(t)} more bits in the buffer does not parse back with its indicator true (exact-length buffer: true)",
+                             expected=True, actual=str(q if is_err(q) else ind1))
+            if kind == "dh":
+                # the octet entry point: from_bytes(octets of the header + more octets)
+                for extra in (b"", b"\x00", b"\xff", b"\xcc\xcc", word.tobytes()[:3], word.tobytes()):
+                    data = word.tobytes() + extra
+                    q = call(self.L.DataHeader.from_bytes, data)
+                    bits = bitarray()
+                    bits.frombytes(data)
+                    pairs.append((f"dh.dec {barg(bits)} {int(is_err(q))}", "ERR ValueError" if is_err(q) else b01(q.crc_ok)))
+                    ctx.case((tag, "context-self-bytes", sent, extra))
+                    ctx.count(f"{tag}:context:valid-from_bytes")
+                    if is_err(q) or q.crc_ok is not True:
+                        ctx.fail("selfcheck-in-context", {"pdu": kind, "last": False, "sent": sent, "buffer": barg(bits), "trailing": barg(bits[96:]), "entry": "from_bytes"},
+                                 f"DataHeader.from_bytes of a library-serialised header followed by {len(extra)} more octets does not report crc_ok", expected=True, actual=str(q if is_err(q) else q.crc_ok))
+            # corrupted copies in context
+            cps = [(i,) for i in range(n)] + [self.class_pattern(rng, rng.choice(["data", "mixed"])) for _ in range(per_pdu)]
+            correct = self.get_chk(word)
+            chk_only = [(label, v) for label, v in rng.sample(special_values(w, own), 6) if v != correct]
+            for cp in cps + chk_only:
+                if isinstance(cp[0], str):
+                    r = self.set_chk(word, cp[1])
+                    pat = tuple(i for i in range(n) if r[i] != word[i])
+                    special = cp[0]
+                else:
+                    pat = tuple(sorted(order[i] for i in cp))
+                    r = apply_pattern(word, pat)
+                    special = None
+                for t in rng.sample(trails, 2 if lenient else 1):
+                    buf = r + bitarray(t)
+                    ctx.case((tag, "context", sent, pat, t))
+                    ctx.count(f"{tag}:context:corrupted+trailing")
+                    self.judge(tag, word, buf, pat, pairs, corr=(len(pat) > 1 or rng.random() < 0.3),
+                               extra={"class": "embedded-in-larger-buffer", "trailing": t, "special": special}, f0=f0)
+        if not ctx.search_only and ctx.driver_ok and pairs:
+            ctx.correspond(f"{tag}.in-context", pairs)
 
 
 # ------------------------------------------------------------------------------------------------
@@ -459,6 +959,41 @@ def hrnp_out(L, d: bytes, q):
     return q
 
 
+def ones_fold(t: int) -> int:
+    while t >> 16:
+        t = (t & 0xFFFF) + (t >> 16)
+    return t
+
+
+def ones_words(data: bytes) -> int:
+    """folded ones' complement sum of the big-endian 16-bit words (odd tail padded with 0x00) — harness reference"""
+    if len(data) % 2:
+        data += b"\x00"
+    return ones_fold(sum(int.from_bytes(data[i:i + 2], "big") for i in range(0, len(data), 2)))
+
+
+def ones_sum(data: bytes) -> int:
+    return ~ones_words(data) & 0xFFFF
+
+
+def flip_bit(b: bytes, bit: int) -> bytes:
+    c = bytearray(b)
+    c[bit // 8] ^= 0x80 >> (bit % 8)
+    return bytes(c)
+
+
+def hrnp_completion(c: bytes) -> bytes:
+    """two octets which, summed as the continuation of the packet's 16-bit words, would make the received checksum
+    field right (the adversarial trailing context for a parser that sums beyond the announced length)"""
+    plen = int.from_bytes(c[8:10], "big")
+    s = ones_words(c[0:10] + c[12:plen])
+    t = ~int.from_bytes(c[10:12], "big") & 0xFFFF
+    delta = (t - s) % 65535
+    if plen % 2:  # first trailing octet completes the last word (low octet), second opens the next (high octet)
+        return bytes([delta & 0xFF, delta >> 8])
+    return bytes([delta >> 8, delta & 0xFF])
+
+
 def hrnp_cases(ctx, L):
     rng = ctx.rng
     packets = []
@@ -466,73 +1001,182 @@ def hrnp_cases(ctx, L):
         packets.append(bytes.fromhex(hx))
     # the library serialises: corpus payloads re-wrapped with other header fields, and the payload-less opcodes
     payloads = [bytes.fromhex(h)[12:] for h in HRNP_CORPUS if len(h) > 24]
-    for i in range(ctx.budget(12, 60)):
+    for i in range(nb(ctx, 12, 60)):
         if i % 3 == 0:
             op = rng.choice([o for o in L.HRNPOpcodes if o != L.HRNPOpcodes.DATA])
             o = call(L.HRNP, opcode=op, source=rng.randrange(256), destination=rng.randrange(256), block_number=rng.randrange(256), packet_number=rng.randrange(65536))
         else:
-            o = call(L.HRNP, data=rng.choice(payloads), opcode=L.HRNPOpcodes.DATA, source=rng.randrange(256), destination=rng.randrange(256),
+            o = call(L.HRNP, data=payloads[i % len(payloads)] if i % 2 else rng.choice(payloads), opcode=L.HRNPOpcodes.DATA, source=rng.randrange(256), destination=rng.randrange(256),
                      block_number=rng.choice([0, 255, rng.randrange(256)]), packet_number=rng.choice([0, 65535, rng.randrange(65536)]), version=rng.choice([3, 4]))
         b = call(lambda: o.as_bytes()) if not is_err(o) else o
         if is_err(b):
             ctx.fail("construct", {"pdu": "hrnp"}, f"cannot build / serialise an HRNP packet: {b}")
             continue
         packets.append(b)
-    # packets whose correct checksum has a single set bit: one inverted bit then makes the received
-    # checksum field 0x0000 (HRNP has no "zero means absent" rule: it must be detected like any other)
-    def ones_sum(data: bytes) -> int:
-        if len(data) % 2:
-            data += b"\x00"
-        t = sum(int.from_bytes(data[i:i + 2], "big") for i in range(0, len(data), 2))
-        while t >> 16:
-            t = (t & 0xFFFF) + (t >> 16)
-        return ~t & 0xFFFF
-
-    for payload, target in ((payloads[0], 0x0001), (payloads[1 % len(payloads)], 0x8000), (b"", 0x0100)):
-        tmpl = call(lambda: L.HRNP(data=payload, opcode=L.HRNPOpcodes.DATA, packet_number=0).as_bytes()) if payload else call(lambda: L.HRNP(opcode=L.HRNPOpcodes.CLOSE, packet_number=0).as_bytes())
+    # packets whose CORRECT checksum is a special value (class "special check-field value"): the checksum is
+    # additive in the packet number, which is solved for.  E.g. a single set bit: one inverted bit then makes the
+    # received field 0x0000 (HRNP has no "zero means absent" rule: it must be detected like any other)
+    targets = [(label, v) for label, v in special_values(16) if v != 0xFFFF]  # a non-zero packet never sums to 0
+    head = [t for t in targets if t[1] in (0x0001, 0x8000, 0x0100, 0x0000, 0xCCCC, 0xFFFE, 0x7FFF)]
+    rest = [t for t in targets if t not in head]
+    chosen = head + rng.sample(rest, min(len(rest), nb(ctx, 8, 40)))
+    special_packets = {}
+    odd_payload = next((x for x in payloads if len(x) % 2), payloads[0])  # 12 + odd = odd packet length
+    even_payload = next((x for x in payloads[1:] if len(x) % 2 == 0), payloads[0])
+    for j, (label, target) in enumerate(chosen):
+        payload = [payloads[0], odd_payload, b"", even_payload][j % 4]
+        mk = (lambda pn: L.HRNP(data=payload, opcode=L.HRNPOpcodes.DATA, packet_number=pn)) if payload else (lambda pn: L.HRNP(opcode=L.HRNPOpcodes.CLOSE, packet_number=pn))
+        tmpl = call(lambda: mk(0).as_bytes())
         if is_err(tmpl):
             continue
-        pn = next((v for v in range(65536) if ones_sum(tmpl[0:6] + v.to_bytes(2, "big") + tmpl[8:10] + tmpl[12:]) == target), None)
-        if pn is None:
+        pn = ((~target & 0xFFFF) - ones_words(tmpl[0:10] + tmpl[12:])) % 65535
+        b = None
+        for cand in (pn, pn + 65535):
+            if cand <= 65535:
+                x = call(lambda: mk(cand).as_bytes())
+                if not is_err(x) and x[10:12] == target.to_bytes(2, "big"):
+                    b = x
+                    break
+        if b is None:
+            ctx.count("hrnp:special:unsolved")
             continue
-        o = call(L.HRNP, data=payload, opcode=L.HRNPOpcodes.DATA, packet_number=pn) if payload else call(L.HRNP, opcode=L.HRNPOpcodes.CLOSE, packet_number=pn)
-        b = call(lambda: o.as_bytes()) if not is_err(o) else o
-        if not is_err(b):
-            packets.append(b)
-            ctx.count("hrnp:packets-with-single-bit-checksum", int(b[10:12] == target.to_bytes(2, "big")))
+        packets.append(b)
+        special_packets[b] = label
+        ctx.count("hrnp:special:packets-with-special-checksum")
+        if bin(target).count("1") == 1:
+            ctx.count("hrnp:packets-with-single-bit-checksum")
     pairs = []
+    valid = []
     for b in packets:
         o = call(L.HRNP.from_bytes, b)
         ctx.case(("hrnp", "self", b), sample={"pdu": "hrnp", "sent": b.hex(), "indicator": None if is_err(o) else o.checksum_correct} if b == packets[4] else None)
         ctx.count("hrnp:packets")
+        ctx.count("hrnp:packets-of-" + ("odd" if len(b) % 2 else "even") + "-length")
         pairs.append((f"hrnp.dec {hex_str(b)} {int(hdap_stage_fails(L, b))}", hrnp_out(L, b, o)))
         if is_err(o) or o.checksum_correct is not True:
-            ctx.fail("selfcheck", {"pdu": "hrnp", "sent": b.hex()}, "a valid / library-serialised HRNP packet does not parse back with checksum_correct", expected=True, actual=str(o if is_err(o) else o.checksum_correct))
+            ctx.fail("selfcheck", {"pdu": "hrnp", "sent": b.hex(), "special": special_packets.get(b)}, "a valid / library-serialised HRNP packet does not parse back with checksum_correct", expected=True, actual=str(o if is_err(o) else o.checksum_correct))
             continue
         if call(lambda: o.as_bytes()) != b:
+            valid.append((b, None))
             continue  # not a library serialisation (captured packet the library normalises): no field comparison
         f0 = fields_of(o, ("checksum", "checksum_correct"))
+        valid.append((b, f0))
         pairs.append((f"hrnp.sum {hex_str(b[0:10] + b[12:])}", str(int.from_bytes(b[10:12], "big"))))
         for bit in range(len(b) * 8):
-            c = bytearray(b)
-            c[bit // 8] ^= 0x80 >> (bit % 8)
-            c = bytes(c)
+            c = flip_bit(b, bit)
             q = call(L.HRNP.from_bytes, c)
             ctx.case(("hrnp", b, bit))
             if bit % 5 == ctx.seed % 5 or bit < 96:
                 pairs.append((f"hrnp.dec {hex_str(c)} {int(hdap_stage_fails(L, c))}", hrnp_out(L, c, q)))
-            if is_err(q):
-                ctx.count("hrnp:decode-error")
-            elif q.checksum_correct is False:
-                ctx.count("hrnp:detected")
-            else:
-                same = fields_of(q, ("checksum", "checksum_correct")) == f0
-                ctx.count(f"hrnp:ACCEPTED-{'same' if same else 'DIFFERENT'}-fields")
-                ctx.fail("corruption-accepted", {"pdu": "hrnp", "sent": b.hex(), "bit": bit, "received": c.hex(), "fields_differ": not same},
-                         f"HRNP: a packet with one inverted bit (octet {bit // 8}) is accepted (checksum_correct)" + (" with different field values" if not same else " (same field values)"),
-                         expected="checksum_correct false or a decode error", actual="checksum_correct true")
+            hrnp_judge(ctx, L, b, f0, c, q, {"bit": bit}, f"one inverted bit (octet {bit // 8})")
     if not ctx.search_only and ctx.driver_ok:
         ctx.correspond("hrnp.checksum_correct", pairs)
+    hrnp_special_cases(ctx, L, valid)
+    hrnp_context_cases(ctx, L, valid)
+
+
+def hrnp_judge(ctx, L, b, f0, c, q, extra, how):
+    """c = received buffer that is not the sent packet b: never checksum_correct"""
+    if is_err(q):
+        ctx.count("hrnp:decode-error")
+    elif q.checksum_correct is False:
+        ctx.count("hrnp:detected")
+    else:
+        same = f0 is not None and fields_of(q, ("checksum", "checksum_correct")) == f0
+        ctx.count(f"hrnp:ACCEPTED-{'same' if same else 'DIFFERENT'}-fields")
+        inp = {"pdu": "hrnp", "sent": b.hex(), "received": c.hex(), "fields_differ": not same}
+        inp.update(extra)
+        ctx.fail("corruption-accepted", inp, f"HRNP: a packet with {how} is accepted (checksum_correct)" + (" with different field values" if not same else " (same field values)"),
+                 expected="checksum_correct false or a decode error", actual="checksum_correct true")
+
+
+def hrnp_special_cases(ctx, L, valid):
+    """the received checksum field is a special value (or derived from the correct one: complement, octets
+    swapped, +-1, reversed) and is not the checksum of the packet: an error confined to the check field"""
+    rng = ctx.rng
+    pairs = []
+    fixed = special_values(16)
+    sel = valid if ctx.thorough() else valid[:4] + rng.sample(valid[4:], min(len(valid) - 4, nb(ctx, 14, 14))) if len(valid) > 4 else valid
+    for b, f0 in sel:
+        correct = int.from_bytes(b[10:12], "big")
+        vals = fixed + derived_values(correct, 16)
+        if not ctx.thorough():
+            vals = vals[:8] + rng.sample(vals[8:], 16)
+        for label, v in vals:
+            if v == correct:
+                continue
+            c = b[:10] + v.to_bytes(2, "big") + b[12:]
+            q = call(L.HRNP.from_bytes, c)
+            ctx.case(("hrnp", "special", b, v))
+            ctx.count("hrnp:special:received-check-field-only")
+            pairs.append((f"hrnp.dec {hex_str(c)} {int(hdap_stage_fails(L, c))}", hrnp_out(L, c, q)))
+            hrnp_judge(ctx, L, b, f0, c, q, {"class": "special-check-value/check-field-only", "special": label}, f"its checksum field replaced by {label} ({v:#06x})")
+    if not ctx.search_only and ctx.driver_ok:
+        ctx.correspond("hrnp.special-values", pairs)
+
+
+def hrnp_context_cases(ctx, L, valid):
+    """class "packet embedded in a larger buffer" (from_bytes accepts len(data) >= announced length: back-to-back
+    packets of a stream, padded datagram): every valid packet and every single-bit corruption of it followed by
+    1..3 octets — zeros, 0xFF, the next packet, and the octets that would complete the checksum if the sum ran on
+    beyond the announced length — for both parities of the packet length"""
+    rng = ctx.rng
+    pairs = []
+    odd = [v for v in valid if len(v[0]) % 2]
+    even = [v for v in valid if len(v[0]) % 2 == 0]
+    k = nb(ctx, 5, 20)
+    sel = odd[:2] + rng.sample(odd[2:], min(len(odd) - 2, k)) if len(odd) > 2 else odd
+    sel += even[:2] + rng.sample(even[2:], min(len(even) - 2, k)) if len(even) > 2 else even
+    nxt = bytes.fromhex(HRNP_CORPUS[0])
+    for b, f0 in valid:
+        par = "odd" if len(b) % 2 else "even"
+        trails = [b"\x00", b"\xff", b"\x01", b"\x80", b"\x7e", b"\x00\x00", b"\xff\xff", b"\x00\x01", b"\x01\x00", b"\x00\x00\x00", b"\xff\xff\xff",
+                  nxt[:1], nxt[:2], nxt[:3], nxt, b, b[10:12], bytes([rng.randrange(1, 256)]), bytes(rng.randrange(256) for _ in range(3))]
+        for t in trails:
+            buf = b + t
+            q = call(L.HRNP.from_bytes, buf)
+            ctx.case(("hrnp", "context-self", b, t))
+            ctx.count(f"hrnp:context:valid-{par}-length+{'next-packet' if len(t) > 3 else str(len(t)) + '-octets'}")
+            pairs.append((f"hrnp.dec {hex_str(buf)} {int(hdap_stage_fails(L, buf))}", hrnp_out(L, buf, q)))
+            if is_err(q) or q.checksum_correct is not True:
+                ctx.fail("selfcheck-in-context", {"pdu": "hrnp", "sent": buf.hex(), "packet": b.hex(), "trailing": t.hex()},
+                         f"a valid HRNP packet of {par} length {len(b)} followed by {len(t)} more octets ({t.hex()[:16]}) in the buffer does not parse with checksum_correct (exact-length buffer: true)",
+                         expected=True, actual=str(q if is_err(q) else q.checksum_correct))
+            elif f0 is not None and fields_of(q, ("checksum", "checksum_correct")) != f0:
+                ctx.fail("selfcheck-in-context", {"pdu": "hrnp", "sent": buf.hex(), "packet": b.hex(), "trailing": t.hex(), "fields_differ": True},
+                         f"a valid HRNP packet followed by {len(t)} more octets parses to other field values than from the exact-length buffer", expected="same fields", actual="different fields")
+        # a truncated buffer is never accepted
+        for cut in (1, 2):
+            buf = b[:-cut]
+            q = call(L.HRNP.from_bytes, buf)
+            ctx.case(("hrnp", "context-truncated", b, cut))
+            pairs.append((f"hrnp.dec {hex_str(buf)} {int(hdap_stage_fails(L, buf)) if len(buf) >= 12 else 0}", hrnp_out(L, buf, q)))
+            hrnp_judge(ctx, L, b, f0, buf, q, {"class": "embedded-in-larger-buffer/truncated"}, f"its last {cut} octets missing")
+    for b, f0 in sel:
+        par = "odd" if len(b) % 2 else "even"
+        for bit in range(len(b) * 8):
+            c = flip_bit(b, bit)
+            in_len = 64 <= bit < 80
+            comp = hrnp_completion(c)
+            trails = [comp, comp[:1], comp + b"\x00", comp + nxt, bytes([rng.randrange(1, 256)])]
+            if bit % 4 == 0:
+                trails += [b"\xff", nxt, b"\x00\x00\x00"]
+            for t in trails:
+                buf = c + t
+                q = call(L.HRNP.from_bytes, buf)
+                ctx.case(("hrnp", "context", b, bit, t))
+                ctx.count(f"hrnp:context:corrupted-{par}-length+trailing")
+                if bit % 3 == ctx.seed % 3 or t is comp:
+                    pairs.append((f"hrnp.dec {hex_str(buf)} {int(hdap_stage_fails(L, buf))}", hrnp_out(L, buf, q)))
+                if in_len:
+                    # an inverted bit of the length field makes the parser read into (or stop before) the context:
+                    # another octet range is summed, which the ones' complement sum does not exclude (assumption
+                    # recorded; model and code are still compared)
+                    ctx.count("hrnp:context:length-field-bit(correspondence-only)")
+                    continue
+                hrnp_judge(ctx, L, b, f0, buf, q, {"class": "embedded-in-larger-buffer", "bit": bit, "trailing": t.hex()}, f"one inverted bit (octet {bit // 8}) followed by octets {t.hex()[:16]} in the buffer")
+    if not ctx.search_only and ctx.driver_ok:
+        ctx.correspond("hrnp.in-context", pairs)
 
 
 # ------------------------------------------------------------------------------------------------
@@ -596,14 +1240,63 @@ def run(ctx):
     Fec(ctx, L, "slot").run()
     Fec(ctx, L, "emb").run()
     q = not ctx.thorough()
-    CrcPdu(ctx, L, "dh").run(ctx.budget(10, 25), 0 if q else 2)
-    CrcPdu(ctx, L, "pi").run(ctx.budget(4, 10), 0 if q else 1)
-    CrcPdu(ctx, L, "slc").run(ctx.budget(24, 120), 0)
+    CrcPdu(ctx, L, "dh").run(nb(ctx, 10, 25), 0 if q else 2)
+    CrcPdu(ctx, L, "pi").run(nb(ctx, 4, 10), 0 if q else 1)
+    CrcPdu(ctx, L, "slc").run(nb(ctx, 24, 120), 0)
     for kind in ("r12", "r34", "r1"):
-        CrcPdu(ctx, L, kind, last=False).run(ctx.budget(6, 16), 0 if q else 2)
-        CrcPdu(ctx, L, kind, last=True).run(ctx.budget(6, 16), 0 if q else 2)
+        CrcPdu(ctx, L, kind, last=False).run(nb(ctx, 6, 16), 0 if q else 2)
+        CrcPdu(ctx, L, kind, last=True).run(nb(ctx, 6, 16), 0 if q else 2)
+    # class "special check-field value" (fixed share of the budget)
+    CrcPdu(ctx, L, "dh").special_run(nb(ctx, 5, 10), 24 if q else 120, 6 if q else 24)
+    CrcPdu(ctx, L, "pi").special_run(nb(ctx, 2, 4), 24 if q else 120, 6 if q else 24)
+    CrcPdu(ctx, L, "slc").special_run(nb(ctx, 3, 9), 24 if q else 120, 6 if q else 24)
+    for kind in ("r12", "r34", "r1"):
+        CrcPdu(ctx, L, kind, last=False).special_run(nb(ctx, 1, 3), 16 if q else 80, 6 if q else 24)
+        CrcPdu(ctx, L, kind, last=True).special_run(nb(ctx, 1, 3), 16 if q else 80, 6 if q else 24)
+        CrcPdu(ctx, L, kind, last=True).crc32_special_run(6 if q else 30)
+    # class "PDU embedded in a larger buffer"
+    CrcPdu(ctx, L, "dh").context_run(nb(ctx, 5, 15), 30 if q else 300)
+    CrcPdu(ctx, L, "slc").context_run(nb(ctx, 4, 12), 30 if q else 300)
+    pi_length_cases(ctx, L)
+    for kind in ("r12", "r34", "r1"):
+        CrcPdu(ctx, L, kind, last=False).context_run(nb(ctx, 1, 3), 20 if q else 100)
+        CrcPdu(ctx, L, kind, last=True).context_run(nb(ctx, 1, 3), 20 if q else 100)
     hrnp_cases(ctx, L)
     ctx.exhaustive = ctx.thorough()
+
+
+def pi_length_cases(ctx, L):
+    """PIHeader.from_bits takes the last 16 bits of whatever it is given as the CRC: a buffer of another length
+    IS another PI header (no trailing context).  Both parities of the octet count: serialised -> parsed back ok,
+    every single-bit error and check-field-only special value -> not ok"""
+    rng = ctx.rng
+    pairs = []
+    for nbytes in (0, 1, 2, 7, 8, 9, 11, 12, 13):
+        o = call(L.PIHeader, bytes(rng.getrandbits(8) for _ in range(nbytes)))
+        word = call(lambda: o.as_bits()) if not is_err(o) else o
+        if is_err(word):
+            ctx.fail("construct", {"pdu": "pi", "octets": nbytes}, f"cannot build / serialise a PI header of {nbytes} octets: {word}")
+            continue
+        sent = barg(word)
+        p = call(L.PIHeader.from_bits, bitarray(word))
+        pairs.append((f"pi.dec {sent}", p if is_err(p) else f"{b01(p.crc_ok)} {p.crc} {barg(p.as_bits())}"))
+        ctx.case(("pi", "length", sent))
+        ctx.count("pi:other-length:pdus-" + ("odd" if nbytes % 2 else "even"))
+        if is_err(p) or p.crc_ok is not True:
+            ctx.fail("selfcheck", {"pdu": "pi", "sent": sent}, f"a library-serialised PI header of {nbytes} data octets does not parse back with crc_ok", expected=True, actual=str(p if is_err(p) else p.crc_ok))
+            continue
+        n = len(word)
+        correct = ba2int(word[n - 16:])
+        cands = [apply_pattern(word, (i,)) for i in range(n)] + [word[:n - 16] + int2ba(v, length=16) for _, v in special_values(16, "PiHeader") + derived_values(correct, 16) if v != correct]
+        for r in cands:
+            q = call(L.PIHeader.from_bits, bitarray(r))
+            pairs.append((f"pi.dec {barg(r)}", q if is_err(q) else f"{b01(q.crc_ok)} {q.crc} {barg(q.as_bits())}"))
+            ctx.case(("pi", "length", sent, barg(r)))
+            if not is_err(q) and q.crc_ok is not False:
+                ctx.fail("corruption-accepted", {"pdu": "pi", "last": False, "sent": sent, "received": barg(r), "positions": [i for i in range(n) if r[i] != word[i]]},
+                         f"pi: a corrupted PI header of {nbytes} data octets is accepted (crc_ok)", expected="indicator false or a decode error", actual="indicator true")
+    if not ctx.search_only and ctx.driver_ok:
+        ctx.correspond("pi.other-lengths", pairs)
 
 
 # ------------------------------------------------------------------------------------------------
